@@ -30,6 +30,15 @@ mod pattern;
 mod pattern_generator;
 mod pattern_type;
 
+/// Verification hooks (`--cfg rosu_pp_verif`): re-exports of converter internals.
+#[cfg(rosu_pp_verif)]
+pub mod verif {
+    pub use super::{
+        pattern::ContainedColumns,
+        pattern_generator::hit_object::verif::find_available_column,
+    };
+}
+
 const MAX_NOTES_FOR_DENSITY: usize = 7;
 
 pub fn convert(map: &mut Beatmap, mods: &GameMods) {
